@@ -139,7 +139,28 @@ Lemma C06_gen_combiner_call_sites :
 Proof. reflexivity. Qed.
 Lemma C06_gen_commit_path :
   commit_spawns_write_combiner = true /\ write_combiner_merges_in_goroutine = true
-  /\ combiner_writeto_reads_merge = true /\ write_combiner_recovers = false.
+  /\ combiner_writeto_reads_merge = true.
+Proof. repeat split; reflexivity. Qed.
+(* the merge goroutine of writeCombiner: `defer recoverFatal(&err)` on a named result (current
+   source), or no recover at all (former source); the switch says which *)
+Lemma C06_gen_write_combiner_rsite :
+  write_combiner_rsite =
+  if write_combiner_recovers
+  then [mkRsite "bigmachine" "worker.writeCombiner" true false true true false]%string
+  else [].
+Proof. reflexivity. Qed.
+Lemma C06_gen_commit_error_path :
+  write_combiner_records_error = true
+  /\ commit_combiner_error_return
+     = "return maybeTaskFatalErr{errors.E(""error while writing combiner"", w.combinerErrors[key])}"%string
+  /\ run_combine_commit_cond = "err == nil && task.CombineKey == """""%string.
+Proof. repeat split; reflexivity. Qed.
+Lemma C06_gen_bm_commit_failure :
+  bm_commit_failure_kernel
+  = ["task.Errorf(""failed to commit combiner: %v"", err)"; "m.Done(procs, err)"; "return"]%string
+  /\ bm_commit_failure_target = "Err"%string
+  /\ bm_commit_failure_formats_error = true /\ bm_commit_failure_releases_and_returns = true
+  /\ bm_run_commits_dependencies = true /\ bm_commit_call = "RetryCall"%string.
 Proof. repeat split; reflexivity. Qed.
 Lemma C06_gen_combine_and_return :
   combine_and_return_hands_back_on_panic = true /\ run_combine_uses_combine_and_return = true
@@ -148,9 +169,17 @@ Proof. repeat split; reflexivity. Qed.
 
 (* what the model derives from the tables *)
 Lemma C06_gen_derived_switches :
-  read_exit_local_plain = true /\ read_exit_bm_wraps = true /\ commit_merge_unprotected = true
-  /\ call_retries_temporary = Some true.
+  read_exit_local_plain = true /\ read_exit_bm_wraps = true /\ commit_merge_in_goroutine = true
+  /\ commit_error_returned = true /\ own_commit_modelled = true
+  /\ call_retries_temporary = Some true /\ commit_call_retries_temporary = Some true
+  /\ commit_rsite = mkRsite "bigmachine" "worker.writeCombiner" true false true true false.
 Proof. repeat split; reflexivity. Qed.
+
+(* the switches as they are in the current source: reviseSeverity downgrades temporary application
+   errors (da9420f), the merge goroutine of writeCombiner recovers (72da798) *)
+Lemma C06_gen_switches_current :
+  worker_downgrades_temporary = true /\ write_combiner_recovers = true.
+Proof. split; reflexivity. Qed.
 
 (* every frame the model puts on a stack and expects to recover is in the generated table *)
 Lemma C06_gen_stack_frames_recover :
@@ -167,32 +196,46 @@ Qed.
 
 (* PERSISTENT FAILURE => ERROR, after a bounded number of executions: one for a
    failure fatal to the task, maxConsecutiveLost for one that loses the task.
-   Guards: [known_unbounded] (without the downgrade in reviseSeverity, a temporary
-   error on bigmachine is retried inside RetryCall) and the commit-time merge. *)
-Theorem sites_persistent_is_error_with dt c m x comb :
+   Guards, each tied to a generated switch: [known_unbounded dt] (without the downgrade in
+   reviseSeverity, a temporary error on bigmachine is retried inside RetryCall) and
+   [known_crash wr] (without a recover in writeCombiner's goroutine, the commit-time merge). *)
+Theorem sites_persistent_is_error_with dt wr c m x comb :
   applicable c x comb = true -> expressible c m = true ->
-  known_unbounded dt c m x = false -> known_crash c = false ->
-  exists b, surface_with dt c m x comb persistent =
+  known_unbounded dt c m x = false -> known_crash wr c = false ->
+  exists b, surface_with dt wr c m x comb persistent =
             (RErr b, if retried c m then Z.to_nat max_consecutive_lost else 1%nat).
 Proof.
-  destruct dt, c, m, x, comb; intros A E U K; try discriminate A; try discriminate E;
+  destruct dt, wr, c, m, x, comb; intros A E U K; try discriminate A; try discriminate E;
     try discriminate U; try discriminate K; vm_compute; eexists; reflexivity.
 Qed.
 
-(* ... for the code as it is now, whichever version of reviseSeverity that is *)
+(* ... for the code as it is now, whatever the switches are *)
 Theorem sites_persistent_is_error c m x comb :
   applicable c x comb = true -> expressible c m = true ->
-  known_unbounded worker_downgrades_temporary c m x = false -> known_crash c = false ->
+  known_unbounded worker_downgrades_temporary c m x = false ->
+  known_crash write_combiner_recovers c = false ->
   exists b, surface c m x comb persistent =
             (RErr b, if retried c m then Z.to_nat max_consecutive_lost else 1%nat).
 Proof. apply sites_persistent_is_error_with. Qed.
 
-(* ... and once reviseSeverity downgrades temporary errors: no guard about bigmachine *)
+(* ... with both fixes: no guard at all *)
 Theorem sites_persistent_is_error_fixed c m x comb :
-  applicable c x comb = true -> expressible c m = true -> known_crash c = false ->
-  exists b, surface_with true c m x comb persistent =
+  applicable c x comb = true -> expressible c m = true ->
+  exists b, surface_with true true c m x comb persistent =
             (RErr b, if retried c m then Z.to_nat max_consecutive_lost else 1%nat).
-Proof. intros A E K. apply sites_persistent_is_error_with; auto. Qed.
+Proof. intros A E. apply sites_persistent_is_error_with; auto. Qed.
+
+(* THE CURRENT SOURCE has both (C06_gen_switches_current): unconditionally, for every call
+   site, mode and executor, a persistent failure ends in an error from Run after one
+   execution, or maxConsecutiveLost executions for a failure that loses the task *)
+Lemma surface_current : surface = surface_with true true.
+Proof. reflexivity. Qed.
+
+Theorem sites_persistent_is_error_current c m x comb :
+  applicable c x comb = true -> expressible c m = true ->
+  exists b, surface c m x comb persistent =
+            (RErr b, if retried c m then Z.to_nat max_consecutive_lost else 1%nat).
+Proof. rewrite surface_current. apply sites_persistent_is_error_fixed. Qed.
 
 Example sites_persistent_is_error_witness :
   surface CReader MError XBigmachine false persistent = (RErr true, 1%nat)
@@ -200,65 +243,80 @@ Example sites_persistent_is_error_witness :
   /\ surface CCombBuffer MPanic XBigmachineMC true persistent = (RErr true, 1%nat)
   /\ surface CPartitioner MBadPart XBigmachine true persistent = (RErr false, 1%nat)
   /\ surface CScan MError XLocal false persistent = (RErr false, 5%nat)
-  /\ surface_with true CReader MTemp XBigmachine false persistent = (RErr false, 5%nat).
+  /\ surface CReader MTemp XBigmachine false persistent = (RErr false, 5%nat)
+  /\ surface CCombCommit MPanic XBigmachineMC true persistent = (RErr true, 1%nat)
+  /\ surface CCombCommit MPanic XBigmachine true persistent = (RErr true, 1%nat).
 Proof. repeat split; reflexivity. Qed.
 
-(* without the downgrade the guard is needed, exactly there: RetryCall never hands the
+(* without the downgrade the first guard is needed, exactly there: RetryCall never hands the
    error to the driver.  Whatever the patience [fuel] of the observer, the call is still
    being retried. *)
-Lemma bm_call_temporary_unbounded dt c m x comb e0 :
-  attempt_result c m x comb = AErr e0 -> is_temporary (revise dt e0) = true ->
-  forall fuel k, bm_call dt fuel c m x comb persistent k = (TRhang, (fuel + k)%nat).
+Lemma bm_call_temporary_unbounded dt wr c m x comb e0 :
+  commit_by_driver c x = false -> c <> CCombCommit ->
+  attempt_result wr c m x comb = AErr e0 -> is_temporary (revise dt e0) = true ->
+  forall fuel k, bm_call dt wr fuel c m x comb persistent k = (TRhang, (fuel + k)%nat).
 Proof.
-  intros Ha Ht. induction fuel as [|f IH]; intro k; [reflexivity|].
-  cbn [bm_call]. unfold persistent at 1. rewrite Ha. cbv zeta. rewrite Ht.
+  intros Hd Hc Ha Ht. induction fuel as [|f IH]; intro k; [reflexivity|].
+  cbn [bm_call]. unfold persistent at 1. rewrite Ha, Hd. cbv zeta.
+  replace (match c with CCombCommit => negb own_commit_modelled | _ => false end) with false
+    by (destruct c; congruence).
+  rewrite Ht.
   assert (call_retries_temporary = Some true) as -> by reflexivity.
   cbn [andb]. rewrite IH. f_equal. lia.
 Qed.
 
-Theorem sites_temporary_unbounded_refuted c m x comb :
+Theorem sites_temporary_unbounded_refuted wr c m x comb :
   applicable c x comb = true -> known_unbounded false c m x = true ->
-  (forall fuel k, bm_call false fuel c m x comb persistent k = (TRhang, (fuel + k)%nat))
-  /\ fst (surface_with false c m x comb persistent) = RHang.
+  (forall fuel k, bm_call false wr fuel c m x comb persistent k = (TRhang, (fuel + k)%nat))
+  /\ fst (surface_with false wr c m x comb persistent) = RHang.
 Proof.
   intros A U.
-  destruct c, m, x; try discriminate U; destruct comb; try discriminate A;
-    (split; [eapply bm_call_temporary_unbounded; vm_compute; reflexivity | vm_compute; reflexivity]).
+  destruct wr, c, m, x; try discriminate U; destruct comb; try discriminate A;
+    (split; [eapply bm_call_temporary_unbounded; (discriminate || (vm_compute; reflexivity))
+            | vm_compute; reflexivity]).
 Qed.
 
 Example sites_temporary_unbounded_witness :
   exists c m x comb, applicable c x comb = true /\ expressible c m = true
-    /\ fst (surface_with false c m x comb persistent) = RHang.
+    /\ fst (surface_with false true c m x comb persistent) = RHang.
 Proof. exists CReader, MTemp, XBigmachine, false. repeat split; reflexivity. Qed.
 
 (* the same failure on the local executor is bounded either way *)
-Example sites_temporary_bounded_locally : forall dt,
-  surface_with dt CReader MTemp XLocal false persistent = (RErr false, Z.to_nat max_consecutive_lost).
-Proof. destruct dt; reflexivity. Qed.
+Example sites_temporary_bounded_locally : forall dt wr,
+  surface_with dt wr CReader MTemp XLocal false persistent = (RErr false, Z.to_nat max_consecutive_lost).
+Proof. destruct dt, wr; reflexivity. Qed.
 
 (* MESSAGE: reader and writer errors and every recovered panic carry the user's message
    (a persistent TEMPORARY error ends in the evaluator's own TooManyTries error instead:
    the message clause is about plain errors and panics) *)
-Theorem sites_message_preserved dt c m x comb :
-  applicable c x comb = true -> known_crash c = false ->
+Theorem sites_message_preserved dt wr c m x comb :
+  applicable c x comb = true -> known_crash wr c = false ->
   (m = MPanic \/ ((c = CReader \/ c = CWriter) /\ m = MError)) ->
-  surface_with dt c m x comb persistent = (RErr true, 1%nat).
+  surface_with dt wr c m x comb persistent = (RErr true, 1%nat).
 Proof.
   intros A K H.
-  destruct dt, c, m, x, comb; try discriminate A; try discriminate K;
+  destruct dt, wr, c, m, x, comb; try discriminate A; try discriminate K;
     try (vm_compute; reflexivity);
     exfalso; destruct H as [H|[[H|H] H2]]; congruence.
 Qed.
 
+(* the current source: every panic, including one in the commit-time merge *)
+Theorem sites_message_preserved_current c m x comb :
+  applicable c x comb = true ->
+  (m = MPanic \/ ((c = CReader \/ c = CWriter) /\ m = MError)) ->
+  surface c m x comb persistent = (RErr true, 1%nat).
+Proof. intros A H. rewrite surface_current. apply sites_message_preserved; auto. Qed.
+
 Example sites_message_preserved_witness :
   surface CCombTable MPanic XLocal true persistent = (RErr true, 1%nat)
-  /\ surface CWriter MError XBigmachineMC true persistent = (RErr true, 1%nat).
-Proof. split; reflexivity. Qed.
+  /\ surface CWriter MError XBigmachineMC true persistent = (RErr true, 1%nat)
+  /\ surface CCombCommit MPanic XBigmachineMC true persistent = (RErr true, 1%nat).
+Proof. repeat split; reflexivity. Qed.
 
-Example sites_temporary_error_is_too_many_tries : forall dt,
-  surface_with dt CReader MTemp XLocal false persistent = (RErr false, 5%nat)
-  /\ surface_with true CWriter MTemp XBigmachine false persistent = (RErr false, 5%nat).
-Proof. destruct dt; split; reflexivity. Qed.
+Example sites_temporary_error_is_too_many_tries : forall dt wr,
+  surface_with dt wr CReader MTemp XLocal false persistent = (RErr false, 5%nat)
+  /\ surface_with true wr CWriter MTemp XBigmachine false persistent = (RErr false, 5%nat).
+Proof. destruct dt, wr; split; reflexivity. Qed.
 
 (* NO CRASH, no swallowed failure, nothing outside the model: for every pattern of
    firing, given the generated recover-site table *)
@@ -275,54 +333,68 @@ Proof.
   destruct (eval_lost_bound_enabled && (eval_max_consecutive_lost <=? lost + 1)); [reflexivity|apply IH].
 Qed.
 
-Definition good_attempt (dt : bool) (c : csite) (m : mode) (x : xkind) (comb : bool) : bool :=
-  match attempt_result c m x comb with
+Definition good_attempt (dt wr : bool) (c : csite) (m : mode) (x : xkind) (comb : bool) : bool :=
+  match attempt_result wr c m x comb with
   | AErr e =>
       match x with
       | XLocal => match local_state c e with Some _ => true | None => false end
-      | _ => is_temporary (revise dt e)
-             || match switch bm_run_switch (mkRpc false false true (is_fatal (revise dt e))) with
-                | Some _ => true | None => false end
+      | _ =>
+          if commit_by_driver c x then
+            is_temporary e
+            || (bm_commit_failure_releases_and_returns
+                && match tstate_of bm_commit_failure_target with Some _ => true | None => false end)
+          else if match c with CCombCommit => negb own_commit_modelled | _ => false end then false
+          else is_temporary (revise dt e)
+               || match switch bm_run_switch (mkRpc false false true (is_fatal (revise dt e))) with
+                  | Some _ => true | None => false end
       end
   | _ => false
   end.
 
-Lemma local_submit_not_bad dt c m comb fails :
-  good_attempt dt c m XLocal comb = true -> forall k, bad_t (fst (local_submit c m comb fails k)) = false.
+Lemma local_submit_not_bad dt wr c m comb fails :
+  good_attempt dt wr c m XLocal comb = true ->
+  forall k, bad_t (fst (local_submit wr c m comb fails k)) = false.
 Proof.
   unfold good_attempt, local_submit. intros G k. destruct (fails k); [|reflexivity].
-  destruct (attempt_result c m XLocal comb); try discriminate G.
+  destruct (attempt_result wr c m XLocal comb); try discriminate G.
   destruct (local_state c e); [reflexivity|discriminate G].
 Qed.
 
-Lemma bm_call_not_bad dt c m x comb fails :
-  x <> XLocal -> good_attempt dt c m x comb = true ->
-  forall fuel k, bad_t (fst (bm_call dt fuel c m x comb fails k)) = false.
+Lemma bm_call_not_bad dt wr c m x comb fails :
+  x <> XLocal -> good_attempt dt wr c m x comb = true ->
+  forall fuel k, bad_t (fst (bm_call dt wr fuel c m x comb fails k)) = false.
 Proof.
   intros Hx G. unfold good_attempt in G.
   induction fuel as [|f IH]; intro k; [reflexivity|].
   cbn [bm_call]. destruct (fails k); [|reflexivity].
-  destruct (attempt_result c m x comb); try discriminate G.
-  assert (call_retries_temporary = Some true) as -> by reflexivity. cbv zeta. cbn [andb].
-  destruct x; [congruence| |];
-    (destruct (is_temporary (revise dt e)); [apply IH|];
-     cbn [orb] in G;
-     destruct (switch bm_run_switch (mkRpc false false true (is_fatal (revise dt e)))); [reflexivity|discriminate G]).
+  destruct (attempt_result wr c m x comb); try discriminate G.
+  assert (call_retries_temporary = Some true) as -> by reflexivity.
+  assert (commit_call_retries_temporary = Some true) as -> by reflexivity.
+  cbv zeta. cbn [andb].
+  revert G. destruct x; [congruence| |];
+    (destruct (commit_by_driver c _);
+     [ destruct (is_temporary e); [intros _; apply IH|];
+       cbn [orb]; intro G; apply andb_prop in G as [G1 G2]; rewrite G1; cbn [negb];
+       destruct (tstate_of bm_commit_failure_target); [reflexivity|discriminate G2]
+     | destruct (match c with CCombCommit => negb own_commit_modelled | _ => false end); [discriminate|];
+       destruct (is_temporary (revise dt e)); [intros _; apply IH|];
+       cbn [orb]; intro G;
+       destruct (switch bm_run_switch (mkRpc false false true (is_fatal (revise dt e)))); [reflexivity|discriminate G] ]).
 Qed.
 
-Lemma good_attempt_everywhere dt c m x comb :
-  applicable c x comb = true -> expressible c m = true -> known_crash c = false ->
-  good_attempt dt c m x comb = true.
+Lemma good_attempt_everywhere dt wr c m x comb :
+  applicable c x comb = true -> expressible c m = true -> known_crash wr c = false ->
+  good_attempt dt wr c m x comb = true.
 Proof.
-  destruct dt, c, m, x, comb; intros A E K; try discriminate A; try discriminate E; try discriminate K;
+  destruct dt, wr, c, m, x, comb; intros A E K; try discriminate A; try discriminate E; try discriminate K;
     vm_compute; reflexivity.
 Qed.
 
-Theorem sites_no_crash_with dt c m x comb fails :
-  applicable c x comb = true -> expressible c m = true -> known_crash c = false ->
-  is_bad (fst (surface_with dt c m x comb fails)) = false.
+Theorem sites_no_crash_with dt wr c m x comb fails :
+  applicable c x comb = true -> expressible c m = true -> known_crash wr c = false ->
+  is_bad (fst (surface_with dt wr c m x comb fails)) = false.
 Proof.
-  intros A E K. pose proof (good_attempt_everywhere dt c m x comb A E K) as G.
+  intros A E K. pose proof (good_attempt_everywhere dt wr c m x comb A E K) as G.
   unfold surface_with. apply drive_not_bad. intro k. unfold submit_of.
   destruct x.
   - eapply local_submit_not_bad. exact G.
@@ -331,23 +403,41 @@ Proof.
 Qed.
 
 Theorem sites_no_crash c m x comb fails :
-  applicable c x comb = true -> expressible c m = true -> known_crash c = false ->
+  applicable c x comb = true -> expressible c m = true ->
+  known_crash write_combiner_recovers c = false ->
   is_bad (fst (surface c m x comb fails)) = false.
 Proof. apply sites_no_crash_with. Qed.
+
+(* the current source: no guard *)
+Theorem sites_no_crash_current c m x comb fails :
+  applicable c x comb = true -> expressible c m = true ->
+  is_bad (fst (surface c m x comb fails)) = false.
+Proof. intros A E. rewrite surface_current. apply sites_no_crash_with; auto. Qed.
 
 Example sites_no_crash_witness :
   fst (surface CCombTable MPanic XLocal true (fun k => Nat.even k)) = RErr true
   /\ fst (surface CScan MPanic XLocal false persistent) = RErr true
-  /\ fst (surface CPartitioner MBadPart XBigmachineMC true one_shot) = RErr false.
+  /\ fst (surface CPartitioner MBadPart XBigmachineMC true one_shot) = RErr false
+  /\ fst (surface CCombCommit MPanic XBigmachineMC true one_shot) = RErr true.
 Proof. repeat split; reflexivity. Qed.
 
-(* the guard [known_crash] is needed: the commit of a combine buffer merges the spilled
-   runs with the user's combiner in a goroutine that has no recover (generated facts
-   commit_spawns_write_combiner, write_combiner_merges_in_goroutine, write_combiner_recovers) *)
+(* the second guard was needed for the former source: without a recover on its goroutine
+   (wr = false), the commit of a combine buffer merges the spilled runs with the user's
+   combiner and a panic there kills the process (observed; fixed by 72da798) *)
 Theorem sites_commit_merge_crash_refuted :
   exists c m x comb, applicable c x comb = true /\ expressible c m = true
-    /\ fst (surface c m x comb persistent) = RCrash.
-Proof. exists CCombCommit, MPanic, XBigmachine, true. repeat split; reflexivity. Qed.
+    /\ (forall dt, fst (surface_with dt false c m x comb persistent) = RCrash).
+Proof.
+  exists CCombCommit, MPanic, XBigmachine, true.
+  split; [reflexivity|split; [reflexivity|intro dt; destruct dt; reflexivity]].
+Qed.
+
+(* ... with the recover, on both bigmachine shapes: the panic becomes the error of the commit,
+   carrying the user's message; with machine combiners it is the consumer's Run that sees it *)
+Example sites_commit_merge_recovered : forall dt,
+  surface_with dt true CCombCommit MPanic XBigmachine true persistent = (RErr true, 1%nat)
+  /\ surface_with dt true CCombCommit MPanic XBigmachineMC true persistent = (RErr true, 1%nat).
+Proof. destruct dt; split; reflexivity. Qed.
 
 (* a panicking combiner in the partition buffer still hands the buffer back (fix c6645f8):
    the hand-back is a deferred send, so the next user of the partition finds the buffer *)
@@ -356,12 +446,12 @@ Lemma combine_buffer_handed_back :
 Proof. reflexivity. Qed.
 
 (* TRANSIENT FAILURE: one that would only lose the task and goes away on retry
-   does not fail the run, on every executor, with either reviseSeverity *)
-Theorem sites_transient_recovers_with dt c m x comb :
+   does not fail the run, on every executor, whatever the switches *)
+Theorem sites_transient_recovers_with dt wr c m x comb :
   applicable c x comb = true -> expressible c m = true -> retried c m = true ->
-  surface_with dt c m x comb one_shot = (ROk, 2%nat).
+  surface_with dt wr c m x comb one_shot = (ROk, 2%nat).
 Proof.
-  destruct dt, c, m, x, comb; intros A E R; try discriminate A; try discriminate E; try discriminate R;
+  destruct dt, wr, c, m, x, comb; intros A E R; try discriminate A; try discriminate E; try discriminate R;
     vm_compute; reflexivity.
 Qed.
 
@@ -376,48 +466,46 @@ Example sites_transient_recovers_witness :
   /\ surface CReader MError XLocal false one_shot = (RErr true, 1%nat).   (* a fatal failure is not retried *)
 Proof. repeat split; reflexivity. Qed.
 
-(* fewer than maxConsecutiveLost consecutive losses before a success: success.  On the
-   local executor always; on bigmachine once temporary errors are downgraded (before,
-   they are absorbed by RetryCall and succeed as well, but not as losses) *)
-Theorem sites_temporary_then_success dt c m x comb (n : nat) :
+(* fewer than maxConsecutiveLost consecutive losses before a success: success *)
+Theorem sites_temporary_then_success dt wr c m x comb (n : nat) :
   applicable c x comb = true -> expressible c m = true -> retried c m = true ->
   (Z.of_nat n < max_consecutive_lost) ->
-  surface_with dt c m x comb (fun k => Nat.ltb k n) = (ROk, S n).
+  surface_with dt wr c m x comb (fun k => Nat.ltb k n) = (ROk, S n).
 Proof.
   intros A E R Hn. change max_consecutive_lost with 5 in Hn.
   assert (n = 0 \/ n = 1 \/ n = 2 \/ n = 3 \/ n = 4)%nat as H by lia.
-  destruct dt, c, m, x, comb; try discriminate A; try discriminate E; try discriminate R;
+  destruct dt, wr, c, m, x, comb; try discriminate A; try discriminate E; try discriminate R;
     destruct H as [->|[->|[->|[->| ->]]]]; vm_compute; reflexivity.
 Qed.
 
 (* ================= relation to the coarse model (C06/Model.v) ================= *)
 
-(* wherever neither guard applies, the coarse chain and the site chain agree that Run
-   fails, and the site chain never needs more executions than the evaluator's bound *)
-Theorem sites_refine_model dt c m x comb :
+(* wherever neither guard applies, the coarse chain and the site chain agree: Run fails,
+   after the same number of executions of the failing task *)
+Theorem sites_refine_model dt wr c m x comb :
   applicable c x comb = true -> expressible c m = true ->
-  known_unbounded dt c m x = false -> known_crash c = false ->
+  known_unbounded dt c m x = false -> known_crash wr c = false ->
   fst (run_task (coarse c) m persistent) = RunErr
-  /\ (exists b, fst (surface_with dt c m x comb persistent) = RErr b)
-  /\ (snd (surface_with dt c m x comb persistent) <= Z.to_nat max_consecutive_lost)%nat.
+  /\ (exists b, fst (surface_with dt wr c m x comb persistent) = RErr b)
+  /\ snd (surface_with dt wr c m x comb persistent) = snd (run_task (coarse c) m persistent).
 Proof.
   intros A E U K. split; [apply persistent_failure_is_error|].
-  destruct (sites_persistent_is_error_with dt c m x comb A E U K) as [b H]. rewrite H. split.
+  destruct (sites_persistent_is_error_with dt wr c m x comb A E U K) as [b H]. rewrite H. split.
   - exists b. reflexivity.
-  - cbn [snd]. destruct (retried c m); vm_compute; lia.
+  - cbn [snd]. clear H. destruct c, m; try discriminate E; vm_compute; reflexivity.
 Qed.
 
-(* the severity table of the coarse model is the site chain's, except for the Scan
-   callback: its plain error is not Fatal, the task is lost and rerun *)
+(* the severity table of the coarse model is the site chain's *)
 Theorem sites_severity_agrees c m :
-  expressible c m = true -> c <> CScan ->
+  expressible c m = true ->
   (retried c m = true <-> surfaces (coarse c) m = SevTemporary).
 Proof.
-  intros E Hc. destruct c, m; try discriminate E; try congruence;
+  intros E. destruct c, m; try discriminate E;
     vm_compute; split; intro H; (reflexivity || discriminate H).
 Qed.
 
-Example coarse_model_scan_error_differs :
-  run_task SScan MError persistent = (RunErr, 1%nat)
+(* in particular for the Scan callback: its plain error is not Fatal, the task is lost and rerun *)
+Example coarse_model_scan_error_agrees :
+  run_task SScan MError persistent = (RunErr, 5%nat)
   /\ surface CScan MError XLocal false persistent = (RErr false, 5%nat).
 Proof. split; reflexivity. Qed.
